@@ -75,6 +75,31 @@ def grep_gate():
     for m in re.finditer(r"^\s*(Variable|Hypothesis|Variables|Hypotheses)\b", "", flags=re.M): pass
     return bad
 
+
+# which theorem files (and which theorems in them) are the proof obligations of each property
+PROPS = {
+    "C01": [("Rank.v", r"^C01_")],
+    "C02": [("Sketch.v", r"^C02_"), ("LayerA.v", r"^A3_")],
+    "C03": [("C03.v", r".")],
+    "C04": [("C04dense.v", r"."), ("C04pag.v", r"."), ("LayerA.v", r"^A[1-7]_")],
+    "C05": [("C05.v", r"."), ("LayerA.v", r"^A8_")],
+    "C06": [("Wire.v", r"^C06_")],
+    "C07": [("Wire.v", r"^C07_")],
+    "C08": [("Wire.v", r"^C08_"), ("C18.v", r"prefix_eof|reads_at_most_9")],
+    "C09": [("Proto.v", r".")],
+    "C10": [("C10.v", r".")],
+    "C11": [("Rank.v", r"^C11_")],
+    "C12": [("Sketch.v", r"^C12_")],
+    "C13": [("Sketch.v", r"^C13_")],
+    "C14": [("C04pag.v", r"reads_pure|foreach|compact|key_at_rank"), ("C04dense.v", r"foreach|key_at_rank|total|min_index|max_index"), ("C20.v", r"queries_transparent|inv_lower|inv_upper")],
+    "C15": [("C04dense.v", r"inv_clear|clear_like_new"), ("C04pag.v", r"clear"), ("Sketch.v", r"^C15_"), ("C05.v", r"clear")],
+    "C16": [("Sketch.v", r"^C16_"), ("C04dense.v", r"reweight"), ("C04pag.v", r"reweight"), ("LayerA.v", r"^A5_|bscale")],
+    "C17": [("ChangeMapping.v", r".")],
+    "C18": [("C18.v", r".")],
+    "C19": [("C19real.v", r"."), ("C19.v", r".")],
+    "C20": [("C20.v", r".")],
+}
+
 def closure_key(rel):
     """md5 over the sources of a .v file and of everything it (transitively) requires from this development."""
     seen, todo, h = set(), [rel], hashlib.md5()
@@ -91,13 +116,16 @@ def closure_key(rel):
     return h.hexdigest()
 
 def proof_status(pid, files=None):
-    """Compile Props/<pid>*.v (their dependencies are already built) and read, for every theorem,
+    """Compile the theorem files of a property (their dependencies are already built) and read, for every theorem,
     what Print Assumptions printed. Returns (theorems: dict name -> list of axioms, problems: list)."""
-    files = files or sorted(f for f in os.listdir(os.path.join(COQ, "Props")) if f.startswith(pid) and f.endswith(".v"))
+    spec = files or PROPS.get(pid) or [(f, r".") for f in sorted(os.listdir(os.path.join(COQ, "Props"))) if f.startswith(pid) and f.endswith(".v")]
+    spec = [(x, r".") if isinstance(x, str) else x for x in spec]
     theorems, problems = {}, []
-    for f in files:
+    for f, pat in spec:
+        if not os.path.exists(os.path.join(COQ, "Props", f)): continue
         src = open(os.path.join(COQ, "Props", f)).read()
-        names = re.findall(r"^\s*(?:Theorem)\s+(\w+)", src, flags=re.M)
+        src = re.sub(r"\(\*.*?\*\)", "", src, flags=re.S)
+        names = [n for n in re.findall(r"^\s*(?:Theorem)\s+([\w']+)", src, flags=re.M) if re.search(pat, n)]
         # the output of Print Assumptions is cached, keyed by the sources of the file's transitive imports
         cache = os.path.join(COQ, "Props", f[:-2] + ".out")
         key = closure_key(os.path.join("Props", f))
@@ -114,8 +142,9 @@ def proof_status(pid, files=None):
         # output: one block per Print Assumptions, in order
         blocks = re.split(r"(?=Closed under the global context|Axioms:)", out)
         blocks = [b for b in blocks if b.startswith("Closed") or b.startswith("Axioms:")]
-        printed = re.findall(r"Print Assumptions\s+(\w+)", src)
+        printed = re.findall(r"Print Assumptions\s+([\w']+)", src)
         for n, b in zip(printed, blocks):
+            if n not in names: continue
             if b.startswith("Closed"): theorems[n] = []
             else:
                 ax = re.findall(r"^([A-Za-z_][\w.']*)\s*$|^([A-Za-z_][\w.']*)\s*:", b[len("Axioms:"):], flags=re.M)
@@ -314,7 +343,7 @@ def proof_section(rep, pid, files=None, trusted_extra=()):
     discharged = sum(1 for n, ax in theorems.items() if ax is not None)
     axioms = sorted(set(a for ax in theorems.values() if ax for a in ax))
     rep.coverage.update({
-        "obligations": max(len(theorems), 1), "discharged": discharged if not problems else min(discharged, len(theorems) - 1),
+        "obligations": max(len(theorems), 1), "discharged": discharged if not problems else max(0, min(discharged, len(theorems) - 1)),
         "checker_cmd": "make -C /verif/coq -j16 && coqc -Q . SK Props/%s*.v (Coq 8.16.1 kernel; vm_compute used, no native_compute)" % pid,
         "trusted_base": ["Coq 8.16.1 kernel (coqc), vm_compute", "axioms reported by Print Assumptions: " + (", ".join(axioms) if axioms else "none (closed under the global context)"),
                          "extraction (ExtrOcamlBasic only, no Extract Constant), OCaml 4.13.1, hand-written driver model/driver.ml (parsing/printing)",
